@@ -32,7 +32,8 @@ type spliceCtx struct {
 	callerInfo *types.Info
 	callerFile *ast.File
 	callerSrc  []byte
-	calleeDecl *ast.FuncDecl
+	calleeDecl *ast.FuncDecl // for a local closure: a synthetic declaration (Name = the variable, Type/Body = the literal's)
+	closure    bool
 	calleeInfo *types.Info
 	calleeSrc  []byte
 	calleeFile *ast.File
@@ -115,7 +116,10 @@ func (sc *spliceCtx) splice(call *ast.CallExpr) ([]byte, error) {
 	if fd.Body == nil {
 		return nil, fmt.Errorf("no body")
 	}
-	sig := sc.calleeInfo.Defs[fd.Name].(*types.Func).Type().(*types.Signature)
+	sig, okSig := sc.calleeInfo.Defs[fd.Name].Type().(*types.Signature)
+	if !okSig {
+		return nil, fmt.Errorf("not a function")
+	}
 	if sig.Variadic() {
 		return nil, fmt.Errorf("variadic")
 	}
@@ -264,6 +268,17 @@ func (sc *spliceCtx) splice(call *ast.CallExpr) ([]byte, error) {
 			return true
 		}
 		if !pkgLevel {
+			// a variable the closure captures from the enclosing function must be the same variable at the call site
+			if sc.closure && (obj.Pos() < fd.Type.Pos() || obj.Pos() > fd.Body.End()) {
+				inner := sc.callerPkg.Scope().Innermost(call.Pos())
+				if inner == nil {
+					capErr = fmt.Errorf("scope")
+					return true
+				}
+				if _, o := inner.LookupParent(id.Name, call.Pos()); o != obj {
+					capErr = fmt.Errorf("captured variable %s is shadowed at the call site", id.Name)
+				}
+			}
 			return true
 		}
 		if obj.Pkg() != nil && obj.Pkg() != sc.callerPkg {
@@ -492,7 +507,10 @@ func (sc *spliceCtx) spliceGo(call *ast.CallExpr) ([]byte, error) {
 	if fd.Body == nil {
 		return nil, fmt.Errorf("no body")
 	}
-	sig := sc.calleeInfo.Defs[fd.Name].(*types.Func).Type().(*types.Signature)
+	sig, okSig := sc.calleeInfo.Defs[fd.Name].Type().(*types.Signature)
+	if !okSig {
+		return nil, fmt.Errorf("not a function")
+	}
 	if sig.Variadic() {
 		return nil, fmt.Errorf("variadic")
 	}
@@ -523,6 +541,12 @@ func (sc *spliceCtx) spliceGo(call *ast.CallExpr) ([]byte, error) {
 				return true
 			}
 			pkgLevel := obj.Parent() == types.Universe || (obj.Pkg() != nil && obj.Parent() == obj.Pkg().Scope())
+			if !pkgLevel && sc.closure && (obj.Pos() < fd.Type.Pos() || obj.Pos() > fd.Body.End()) {
+				if _, o := inner.LookupParent(id.Name, call.Pos()); o != obj {
+					capErr = fmt.Errorf("captured variable %s is shadowed at the call site", id.Name)
+				}
+				return true
+			}
 			if !pkgLevel || (obj.Pkg() != nil && obj.Pkg() != sc.callerPkg) {
 				return true
 			}
